@@ -224,16 +224,19 @@ type asofArgs struct {
 
 func stateAsof(args asofArgs) *DbState {
 	store := args.store
-	var offSchema, offInfo uint64
+	// the oldest valid state seen so far (the scan goes from newest to oldest)
+	var offSchema, offInfo, stateOff uint64
 	var t int64
 	off := store.Size()
 	for {
 		if off = store.LastOffset(off, magic1, nil); off == 0 {
 			break
 		}
-		if offSchema, offInfo, t = readState(store, off); t == 0 {
+		os, oi, tt := readState(store, off)
+		if tt == 0 {
 			continue // invalid
 		}
+		offSchema, offInfo, t, stateOff = os, oi, tt, off
 		if t <= args.asof {
 			break
 		}
@@ -241,7 +244,7 @@ func stateAsof(args asofArgs) *DbState {
 	if t == 0 {
 		panic("no state found")
 	}
-	return &DbState{store: store, Asof: t, Off: off,
+	return &DbState{store: store, Asof: t, Off: stateOff,
 		Meta: meta.ReadMeta(store, offSchema, offInfo)}
 }
 
